@@ -279,7 +279,10 @@ def run_parent(pid, tier, seed, jobs):
     wall = time.monotonic() - t0
     ev, lines, rc = merge(pid, mod, tier, seed, shards, cfg, wall)
     os.makedirs(EVID, exist_ok=True)
-    with open(os.path.join(EVID, f"{pid}.json"), "w") as f:
+    # evidence/<id>.json only ever describes /repo itself; a developer run against a scratch copy (PV_REPO) writes elsewhere
+    ev_dir = os.path.join(EVID, ".work", "scratch-copy") if os.environ.get("PV_REPO") else EVID
+    os.makedirs(ev_dir, exist_ok=True)
+    with open(os.path.join(ev_dir, f"{pid}.json"), "w") as f:
         f.write(dumps(ev))
     if not os.environ.get("PV_KEEP_WORK"):
         shutil.rmtree(work, ignore_errors=True)
@@ -310,7 +313,9 @@ def run_replay(path):
         print(f"VIOLATION property={pid} replay={path}  # reproduced: {v['monitor']}: {v['message'][:400]}")
         print(json.dumps(v, indent=1)[:4000])
         return 1
-    print(f"[{pid}] replay: witness no longer violates ({len(d['violations'])} other violation(s) in that shard)")
+    others = sorted({str(v.get("mech")) for v in d["violations"]})
+    print(f"[{pid}] replay: witness no longer violates ({len(d['violations'])} other violation(s) in that shard"
+          + (f"; mechanisms: {others[:8]}" if others else "") + ")")
     return 0
 
 
